@@ -54,7 +54,15 @@ static enum eventloop_return handle_events(struct eventloop_epoll *loop, int num
 		}
 		loop->current_ev = ev;
 
-		if (unlikely((events[i].events & ~(EPOLLIN | EPOLLOUT)) != 0)) {
+		/*
+		 * A hang-up or error that is reported together with EPOLLIN
+		 * (e.g. a peer on the local socket that sent a message and
+		 * closed) must not discard the data that can still be read:
+		 * the read handler sees the end of the stream or the error
+		 * after the last byte.
+		 */
+		if (unlikely(((events[i].events & ~(EPOLLIN | EPOLLOUT)) != 0) &&
+		             (((events[i].events & EPOLLIN) == 0) || (ev->read_function == NULL)))) {
 			if (ev->error_function(ev) == EL_ABORT_LOOP) {
 				return EL_ABORT_LOOP;
 			}
